@@ -856,7 +856,7 @@ func polGen(real bool) func(t *rapid.T) polCase {
 		c.ErrShape = rapid.IntRange(0, 4).Draw(t, "errshape")
 		if rapid.IntRange(0, 3).Draw(t, "slowcleanup") == 0 {
 			c.CleanupNS = rapid.SampledFrom([]int64{int64(time.Millisecond), int64(900 * time.Millisecond), int64(1100 * time.Millisecond), int64(2 * time.Second), int64(5 * time.Second),
-				int64(5*time.Second + 1), int64(11 * time.Second), int64(31 * time.Second), int64(91 * time.Second)}).Draw(t, "cleanupns")
+				int64(5*time.Second + 2), int64(11 * time.Second), int64(31 * time.Second), int64(91 * time.Second)}).Draw(t, "cleanupns")
 		}
 		if real {
 			for i, m := 0, rapid.IntRange(0, 12).Draw(t, "nfails"); i < m; i++ {
